@@ -257,6 +257,7 @@ def run_unit(component, seed, count, tag=''):
 def code_props(code):
     table = {1302: ['C13', 'C08'], 1307: ['C13', 'C06'], 1313: ['C13', 'C11'], 1315: ['C13', 'C11'], 1103: ['C11', 'C13'],
              602: ['C06', 'C05'], 603: ['C06', 'C05'], 901: ['C09', 'C15'], 1104: ['C11'], 1105: ['C11'],
+             611: ['C06', 'C09'], 612: ['C06', 'C05'],
              811: ['C08', 'C09'], 812: ['C09', 'C10', 'C03'], 813: ['C08', 'C10'], 814: ['C08'], 815: ['C08', 'C09'], 816: ['C09', 'C03', 'C08'],
              821: ['C09'], 822: ['C09', 'C07']}
     if code in table:
@@ -276,7 +277,8 @@ CODE_TEXT = {
     701: 'caller observed success after cancel without handler OK', 703: 'caller operation did not return when its context was cancelled',
     704: 'handler operation still pending after the cancel notice was delivered', 802: 'handler invoked twice for one RPC', 803: 'wrong handler invoked',
     901: 'panic', 1001: 'handler started for an RPC begun after shutdown', 1002: 'RPC begun after shutdown was not refused with Unavailable',
-    1003: 'tunnel ended after graceful shutdown was initiated', 1103: 'settings frame present/absent contrary to advertisement',
+    1003: 'tunnel ended after graceful shutdown was initiated', 1004: 'Stop returned before every Serve call had returned',
+    1005: 'GracefulStop did not return although the RPCs in flight had finished', 1103: 'settings frame present/absent contrary to advertisement',
     1301: 'settings not first / wrong stream id', 1302: 'frame before new_stream or stream ids not increasing', 1303: 'headers twice or after a message',
     1304: 'envelope before previous message finished', 1305: 'continuation without envelope', 1306: 'continuation exceeds announced size',
     1307: 'data frame larger than 16 KiB', 1308: 'frame after close_stream', 1309: 'second close_stream', 1310: 'request data after half-close',
@@ -395,6 +397,8 @@ def run_sim(family, seed, count, scenario_file=None, keep_trace=False):
                 kvs = dict(x.split('=') for x in line.split(' ')[2:] if '=' in x)
                 raw = ('rawc' if kvs.get('rawc', '0').strip() == '1' else '') + ('raws' if kvs.get('raws', '0').strip() == '1' else '')
                 sigs[cur] = [kvs.get('mode', '?').strip(), 'rev0' if (kvs.get('cdis') == '1' or kvs.get('sdis') == '1' or kvs.get('cleg') == '1' or kvs.get('sleg') == '1') else 'fc', raw or 'real', set()]
+            elif line.startswith('E ') and ' op=cancel ' in line and cur in sigs:
+                sigs[cur][3].add('cancel')
             elif line.startswith('E ') and ' stim kind=' in line:
                 m = re.search(r'stim kind=(\w+)', line)
                 if m and m.group(1) in ('fail', 'chclose', 'ctxend', 'stop', 'rawend', 'shutdown'):
@@ -508,7 +512,7 @@ class Verdict:
                                       'action': f['act'], 'a': f['a'], 'b': f['b'], 'seed': r['seed'], 'trace': r.get('trace')})
         for a in r['abnormal']:
             rel = ['C09', 'C15'] if a['status'].startswith('panic') else \
-                  ((['C03', 'C05', 'C15'] + (['C04'] if a.get('after_tunnel_end') else [])) if a['status'].startswith('hang')
+                  ((['C03', 'C05', 'C15'] + (['C04'] if a.get('after_tunnel_end') else []) + (['C07'] if 'cancel' in a.get('sig', '') else [])) if a['status'].startswith('hang')
                    else (['C14'] + (['C04'] if a.get('after_tunnel_end') else [])))
             if self.pid not in rel:
                 continue
